@@ -59,6 +59,30 @@ claim("C10", "other",
       "connected => last_received.is_some() kept by every writer; no time recovery and no route override in classic. Found the classic half of F1, repaired.",
       "DESIGN.md 5 C10", "lock-step equality with an executable reference over histories is not decided.")
 
+claim("C01", "other",
+      "value-chain reconstruction of the payload slice, CFG never-both / not-in-cycle / skip-condition path formulas, who-may-mutate tables for the parallel queue vectors, sibling comparison of the Err arms of all batch-send callers",
+      "Decided for every path: the slice handed to each forward/probe site is &recv_buf[..n] and is passed through &[u8] parameters unchanged into a whole-slice copy; "
+      "the two forward sites exclude each other, neither is in a loop, the forwarder queues once unless the index is out of range; after registration a datagram is "
+      "not forwarded only on read error / empty read / empty scheduler answer; queue, sequences and queue_times are only ever pushed, fully drained (zipped in order) or "
+      "cleared together; only the two link resets discard queued data; every drained datagram's bytes are offered to the socket and success needs sent >= total; "
+      "flush thresholds {4,16,32}, threshold flush guard and converse, timer arm and its skip condition, 15 ms constants; probes only on gated connected other links, "
+      "1 in 100 (inductive counter range); every caller of send_connection_batch resets the link on Err. Found defect F3 (timer flush ignored send errors), repaired.",
+      "DESIGN.md 5 C01", "Real-time bounds (15 ms, tokio timers) and kernel/NIC behaviour are not decided.")
+claim("C02", "other",
+      "must-pass-through (resync after every log mutation, with the failed-remove idiom proved by path conditions), guard entailment under `found`, exact early-return formula, closure return formulas, guard-or-repair rule for inserts vs the highwater mark, loop/attribution path conditions in the shell",
+      "The representation invariant in_flight == |packet_log| is kept by all 7 mutation sites of the 6 writers (closed writer sets); NAK / SRTLA-ACK effects are all under `found`; "
+      "the cumulative ACK has no effect iff ack <= highwater, keeps seq > ack on the slow path, removes highwater+1..=ack on the fast path, and is applied to every link; "
+      "every insert is guarded by or repairs `seq > highwater`; arrival link first, then first other holder, then stop; global +1 on every link; registration at flush with the "
+      "routed sequence number. Found defect F2 (late-registered sequence leaked by the fast path), repaired.",
+      "DESIGN.md 5 C02", "Equality with a set model over histories, 31-bit wrap and |log| < 2^31 are not decided.")
+claim("C05", "proof",
+      "CFG shape rules (never-both, back-edge-only-if), who-may-call, guard entailment, symbolic abstract interpretation of the charge, exact formula equivalence of the tracker predicates",
+      "At most one charge per NAK: the tracker-hit site cannot reach the scan, the scan continues only after a charge that returned false, handle_nak has no other caller and "
+      "attribute_nak runs once per NAK number; the congestion charge and every store are under a successful removal from the link's own log; the charge is exactly "
+      "saturating +1 loss, max(window-100,1000), one slot; tracker validity == conn_id != 0 & same seq & age <= 5000, slot = seq & (16384-1), insert overwrites all three fields; "
+      "only the forwarder records ownership, with (seq, connections[sel_idx].conn_id, packet time); a vanished link falls back to the holder scan.",
+      "DESIGN.md 5 C05", "")
+
 NOT_APPLICABLE = {}
 ALL = ["C%02d" % i for i in range(1, 21)]
 
